@@ -34,7 +34,8 @@ var errNotEnoughValues = errors.New("not enough values for format string")
 //
 // It works by scanning the verbs in the format string and converting the
 // argument corresponding to this verb to the correct type, then calling Go's
-// fmt.Sprintf().
+// fmt.Sprintf().  When Go's output for a verb differs from C's, the argument
+// is formatted here instead and passed on to fmt.Sprintf() as a string.
 //
 // It temporarily requires all the memory needed to store the formatted string,
 // but releases it before returning so the caller should require memory first
@@ -60,6 +61,7 @@ OuterLoop:
 				arg          interface{}
 				length, prec int
 				foundDot     bool
+				flags        fmtFlags
 			)
 		ArgLoop:
 			for i++; i < len(format); i++ {
@@ -87,20 +89,17 @@ OuterLoop:
 					if !ok {
 						return "", errors.New("invalid value for integer format")
 					}
-					tmpMem += t.RequireBytes(10)
 					switch format[i] {
-					case 'u':
-						// Unsigned int
-						arg = uint64(n)
-						outFormat[i] = 'd' // No 'u' verb in Go
-					case 'i':
-						// Signed int
+					case 'b', 'U':
+						// Go verbs
+						tmpMem += t.RequireBytes(10)
 						arg = int64(n)
-						outFormat[i] = 'd' // No 'i' verb in Go
-					case 'x', 'X':
-						arg = uint64(n) // Need to convert to unsigned
 					default:
-						arg = int64(n)
+						// C verbs: Go formats integers differently so that is
+						// done here and the result is output with %s.
+						tmpMem += t.RequireBytes(maxIntLen(length, prec))
+						arg = formatInt(int64(n), format[i], flags, length, prec, foundDot)
+						setStringVerb(outFormat[start : i+1])
 					}
 					break ArgLoop
 				case 'a', 'A':
@@ -185,6 +184,9 @@ OuterLoop:
 				case '.':
 					foundDot = true
 				case '0', '1', '2', '3', '4', '5', '6', '7', '8', '9':
+					if format[i] == '0' && !foundDot && length == 0 {
+						flags.zero = true
+					}
 					if foundDot {
 						prec = prec*10 + int(format[i]-'0')
 						if prec >= 100 {
@@ -196,8 +198,14 @@ OuterLoop:
 							return "", errors.New("precision too long")
 						}
 					}
-				case '+', '-', '#', ' ':
-					// flag characters
+				case '-':
+					flags.minus = true
+				case '+':
+					flags.plus = true
+				case ' ':
+					flags.space = true
+				case '#':
+					flags.sharp = true
 				default:
 					// Unrecognised verbs
 					return "", errors.New("invalid format string")
@@ -217,6 +225,98 @@ OuterLoop:
 
 	// Release temporary memory
 	return fmt.Sprintf(string(outFormat), args...), nil
+}
+
+// fmtFlags records the flags found in a conversion specification.
+type fmtFlags struct {
+	minus, plus, space, sharp, zero bool
+}
+
+// setStringVerb changes the conversion specification spec (without the leading
+// '%') to output a string unchanged: it is for when the argument has already
+// been formatted.  The verb is replaced with 's' and the flags, width and
+// precision with spaces (the space flag has no effect on strings).
+func setStringVerb(spec []byte) {
+	for i := range spec {
+		spec[i] = ' '
+	}
+	spec[len(spec)-1] = 's'
+}
+
+// pad adds spaces to s (on the right if left is true, otherwise on the left) so
+// it has a length of at least width.
+func pad(s string, width int, left bool) string {
+	if len(s) >= width {
+		return s
+	}
+	if left {
+		return s + strings.Repeat(" ", width-len(s))
+	}
+	return strings.Repeat(" ", width-len(s)) + s
+}
+
+// maxIntLen returns an upper bound for the length of the string returned by
+// formatInt with the given width and precision.
+func maxIntLen(width, prec int) int {
+	if prec < 22 {
+		prec = 22 // Enough digits for any 64 bit integer in base 8
+	}
+	if width < prec+2 {
+		return prec + 2 // Room for a sign or a prefix
+	}
+	return width
+}
+
+// formatInt formats n as C's printf does for the conversion specifier verb (one
+// of d, i, u, o, x, X).  For verbs other than d and i, n is converted to an
+// unsigned integer.
+func formatInt(n int64, verb byte, flags fmtFlags, width, prec int, hasPrec bool) string {
+	var (
+		u      = uint64(n)
+		base   = 10
+		prefix string
+	)
+	switch verb {
+	case 'd', 'i':
+		switch {
+		case n < 0:
+			u = -u
+			prefix = "-"
+		case flags.plus:
+			prefix = "+"
+		case flags.space:
+			prefix = " "
+		}
+	case 'o':
+		base = 8
+	case 'x', 'X':
+		base = 16
+		if flags.sharp && u != 0 {
+			prefix = "0x"
+		}
+	}
+	digits := strconv.FormatUint(u, base)
+	if hasPrec && prec == 0 && u == 0 {
+		digits = ""
+	}
+	// The precision is the minimum number of digits, in its absence the '0'
+	// flag pads with zeros to the width (unless the '-' flag is present).
+	zeros := 0
+	if hasPrec {
+		zeros = prec - len(digits)
+	} else if flags.zero && !flags.minus {
+		zeros = width - len(prefix) - len(digits)
+	}
+	if zeros <= 0 && verb == 'o' && flags.sharp && digits != "0" {
+		zeros = 1 // In the alternate form the first digit must be 0
+	}
+	if zeros > 0 {
+		digits = strings.Repeat("0", zeros) + digits
+	}
+	if verb == 'X' {
+		prefix, digits = strings.ToUpper(prefix), strings.ToUpper(digits)
+	}
+	return pad(prefix+digits, width, flags.minus)
 }
 
 // Quote returns a string representing the value as a valid Lua literal if
